@@ -382,6 +382,15 @@ class CSetOp(object):
             if n == "Py_BuildValue":
                 vals = [self.ev(a, env) for a in args[1:]]
                 return ("tuple", vals[0], vals[1])
+            if n == "PyTuple_Pack" and len(args) == 3 and const_int(args[0]) == 2:
+                w0 = self.ev(args[1], env)
+                if isinstance(w0, tuple) and w0 and w0[0] == "wobj":
+                    w0 = w0[1]
+                return ("tuple", w0, self.ev(args[2], env))
+            if n in ("PyLong_FromLong", "PyLong_FromLongLong", "PyLong_FromUnsignedLong",
+                     "PyLong_FromUnsignedLongLong", "PyFloat_FromDouble", "longlong_as_object",
+                     "ulonglong_as_object") and len(args) == 1:
+                return ("wobj", self.ev(args[0], env))       # the object form of a weight / value: not NULL
             if n == "PyObject_CallObject":
                 t = self.ev(args[0], env)
                 if isinstance(t, tuple) and t[0] == "type":
